@@ -4,11 +4,12 @@
    and canonical results (no panic, no hang: the model is a total function and Duration * f64 has no loop),
    infinities -> bounds, NaN -> zero, and Duration * f64 = the exact real product truncated toward zero.
    and Unit * f64 = exactly the product whenever that is a whole number of nanoseconds below 2^53 (Flocq).
-   Not proved (checked against exact rationals in the correspondence run instead): the ulp bounds of
-   to_seconds / to_unit, and Unit * f64 on products that are not whole or exceed 2^53. *)
+   to_seconds / to_unit are within a few units in the last place of the exact value (error of every binary64 step composed).
+   Not proved (checked against exact rationals in the correspondence run instead): monotonicity of to_seconds in the duration,
+   and Unit * f64 on products that are not integers representable as doubles. *)
 From Coq Require Import Reals ZArith Bool List.
 From Flocq Require Import Core.Core IEEE754.BinarySingleNaN.
-From HF Require Import MachInt GenConsts GenLeap GenUnits Duration Epoch F64 DurationF64 SignedNs DurationP F64P F64ExactP.
+From HF Require Import MachInt GenConsts GenLeap GenUnits Duration Epoch F64 DurationF64 SignedNs DurationP F64P F64ExactP F64ErrP.
 Open Scope Z_scope.
 
 Theorem C18_unit_times_float_total_and_canonical : forall u q, canon (unit_mul_f64 u q).
@@ -57,6 +58,19 @@ Proof. exact unit_mul_f64_exact_repr. Qed.
 Theorem C18_unit_mul_f64_whole_days : forall q d, is_finite q = true -> B2R q = IZR d -> Z.abs d <= 6800000 ->
   unit_mul_f64 Day q = unit_mul_i64 Day d.
 Proof. exact unit_mul_f64_whole_days. Qed.
+
+(* rounding-error bounds (Flocq): to_seconds within 2^-53 relative of the exact value plus 2^-51 s; to_unit within
+   5 * 2^-53 relative of the exact value in that unit plus 2^-49 of one second's worth -- "a few units in the last place
+   of the value, or of one second for sub-second values" -- for every canonical duration and every unit *)
+Theorem C18_to_seconds_error : forall d, canon d ->
+  is_finite (to_seconds d) = true /\
+  (Rabs (B2R (to_seconds d) - IZR (val d) / 1000000000) <= bpow radix2 (-53) * Rabs (IZR (val d) / 1000000000) + bpow radix2 (-51))%R.
+Proof. exact to_seconds_err. Qed.
+Theorem C18_to_unit_error : forall d u, canon d ->
+  is_finite (to_unit d u) = true /\
+  (Rabs (B2R (to_unit d u) - IZR (val d) / IZR (spec_unit_factor u))
+   <= 5 * bpow radix2 (-53) * Rabs (IZR (val d) / IZR (spec_unit_factor u)) + bpow radix2 (-49) / (IZR (spec_unit_factor u) / 1000000000))%R.
+Proof. exact to_unit_err. Qed.
 
 Example C18_nonvacuous :
   dur_mul_f64 (mkD 0 1000000000) 9223372036854775808 = D_ZERO /\           (* 1 s * -0.0 *)
